@@ -1,8 +1,13 @@
 package chainh
 
 import (
+	"context"
 	"fmt"
 	"math/rand"
+	"os"
+	"os/exec"
+	"path/filepath"
+	"strings"
 	"sync"
 	"time"
 
@@ -291,4 +296,68 @@ func RunUtxo(ctx *vrun.Ctx, k, d, maxops, maxPaths int) error {
 		ctx.AddTraces(1)
 	})
 	return firstErr
+}
+
+// RunUtxoInductive discharges, with Apalache, that IndInv of UtxoCache.tla
+// (per cache slot: what its flags promise about the disk and the truth) is an
+// inductive invariant and implies the property -- for histories of any length,
+// where TLC only explores bounded ones.  It is a statement about the
+// specification (the design of the flag protocol); the binding to the code is
+// the replay of the TLC graph.
+func RunUtxoInductive(ctx *vrun.Ctx) error {
+	if _, err := exec.LookPath("apalache-mc"); err != nil {
+		ctx.SetExtra("apalache", "not installed: inductive check skipped")
+		return nil
+	}
+	dir, err := os.MkdirTemp(ctx.Scratch, "apalache-")
+	if err != nil {
+		return err
+	}
+	defer os.RemoveAll(dir)
+	for _, f := range []string{"UtxoCache.tla", "UtxoCacheInd.tla"} {
+		b, err := os.ReadFile(filepath.Join(ctx.SpecDir("chain"), f))
+		if err != nil {
+			return err
+		}
+		if err := os.WriteFile(filepath.Join(dir, f), b, 0o644); err != nil {
+			return err
+		}
+	}
+	type job struct{ name, init, inv, length string }
+	jobs := []job{
+		{"base (Init => IndInv)", "Init", "IndInv", "0"},
+		{"step (IndInv /\\ Next => IndInv')", "IndInit", "IndInv", "1"},
+		{"IndInv => Coherent /\\ flush-exact", "IndInit", "Props", "0"},
+	}
+	errs := make([]error, len(jobs))
+	var wg sync.WaitGroup
+	for i, j := range jobs {
+		wg.Add(1)
+		go func(i int, j job) {
+			defer wg.Done()
+			out := filepath.Join(dir, fmt.Sprintf("out%d", i))
+			cctx, cancel := context.WithTimeout(context.Background(), 20*time.Minute)
+			defer cancel()
+			cmd := exec.CommandContext(cctx, "apalache-mc", "check", "--out-dir="+out, "--cinit=ConstInit", "--init="+j.init, "--inv="+j.inv, "--length="+j.length, "UtxoCacheInd.tla")
+			cmd.Dir = dir
+			b, _ := cmd.CombinedOutput()
+			s := string(b)
+			switch {
+			case strings.Contains(s, "The outcome is: NoError"):
+				ctx.AddExtra("apalache_obligations_discharged", 1)
+			case strings.Contains(s, "The outcome is: Error"):
+				errs[i] = fmt.Errorf("Apalache: %s does not hold for UtxoCache.tla: the specification's inductive invariant is wrong (a statement about the spec, not about btcd)\n%s", j.name, tailOf(s, 1500))
+			default:
+				errs[i] = fmt.Errorf("Apalache did not finish %s: %s", j.name, tailOf(s, 800))
+			}
+		}(i, j)
+	}
+	wg.Wait()
+	for _, e := range errs {
+		if e != nil {
+			return e
+		}
+	}
+	ctx.Logf("UtxoCache IndInv: base, step and implication discharged by Apalache (K=3 coins, any history length)")
+	return nil
 }
